@@ -8,6 +8,7 @@ foreign records, torn tails).  No bound on the number, order or size of records.
 -/
 import Cacache.Lemmas.Index
 import Cacache.Lemmas.CodecLaws
+import Cacache.Lemmas.Refine
 
 namespace Cacache.C05
 
@@ -76,6 +77,63 @@ theorem lookup_never_written_cacache (cfg : Cfg) (b0 : Bytes) (rs : List Rec) (k
     (hW : ∀ x ∈ rs, x.WF) (hrs : rs ≠ []) (h0 : ∀ s ∈ (codec cfg).entriesT b0, s.key ≠ k)
     (h : ∀ s ∈ rs, s.key ≠ k) : (codec cfg).find ((codec cfg).appendAll b0 rs) k = none :=
   lookup_never_written (codec cfg) (codec_laws cfg) b0 rs k hW hrs h0 h
+
+/-! ### program level: any sequence of index operations refines a map
+
+`Lemmas/Refine.lean`: the real programs `insert` / `delete` / `find`, run one after the other on the
+model filesystem from a healthy index (every bucket absent or a settled regular file, every
+ancestor of a bucket absent or a directory — the empty cache is healthy), answer exactly like the
+abstract map `key ↦ Option Meta`, keep the abstraction in step and keep the index healthy — by
+induction over arbitrary operation sequences, each operation with its own clock answer, SHA-1
+collisions of keys allowed, total correctness included (every insert SUCCEEDS). -/
+
+open Refine in
+/-- **The index is a map** (refinement). -/
+theorem index_refines_map (cfg : Cfg) (cache : Path) (ops : List (Env × IOp)) (fs : FS)
+    (h : HealthyIndex cfg cache fs) (hops : ∀ x ∈ ops, OpWF cfg x.2) :
+    (runOps cfg cache ops fs).1 = (specRun ops (absIndex cfg cache fs)).1 ∧
+    absIndex cfg cache (runOps cfg cache ops fs).2 = (specRun ops (absIndex cfg cache fs)).2 ∧
+    HealthyIndex cfg cache (runOps cfg cache ops fs).2 :=
+  Refine.index_refines_map cfg cache ops fs h hops
+
+open Refine in
+/-- **C05 at program level, "most recent write"**: after any operation sequence in which
+`ins key o` (integrity computed by the library) is the last operation writing `key`, the lookup
+program returns exactly that insert's entry. -/
+theorem program_lookup_returns_last_insert (cfg : Cfg) (cache : Path) (pre post : List (Env × IOp))
+    (env : Env) (key : Bytes) (o : WriteOpts) (a : Algo) (data : Bytes) (fs : FS)
+    (h : HealthyIndex cfg cache fs) (hops : ∀ x ∈ pre ++ (env, IOp.ins key o) :: post, OpWF cfg x.2)
+    (hsri : o.sri = some (Sri.compute cfg.H a data)) (hpost : ∀ x ∈ post, ¬ x.2.writes key) (env' : Env) :
+    (Prog.run env' (find cfg cache key) (runOps cfg cache (pre ++ (env, IOp.ins key o) :: post) fs).2).1 =
+      .ok (some { key := key, sri := Sri.compute cfg.H a data, time := stamp env o, size := o.size.getD 0, metadata := o.metadata.getD .null, raw := o.raw }) :=
+  Refine.look_returns_last_insert cfg cache pre post env key o a data fs h hops hsri hpost env'
+
+open Refine in
+/-- **"… and 'not found' otherwise; earlier entries never resurface"**: if the last operation
+writing `key` is a removal (or a tombstone insert), the lookup program finds nothing. -/
+theorem program_lookup_absent_after_removal (cfg : Cfg) (cache : Path) (pre post : List (Env × IOp))
+    (env : Env) (key : Bytes) (op : IOp) (hop : op = IOp.del key ∨ ∃ o, op = IOp.ins key o ∧ o.sri = none)
+    (fs : FS) (h : HealthyIndex cfg cache fs) (hops : ∀ x ∈ pre ++ (env, op) :: post, OpWF cfg x.2)
+    (hpost : ∀ x ∈ post, ¬ x.2.writes key) (env' : Env) :
+    (Prog.run env' (find cfg cache key) (runOps cfg cache (pre ++ (env, op) :: post) fs).2).1 = .ok none :=
+  Refine.look_absent_after_removal cfg cache pre post env key op hop fs h hops hpost env'
+
+open Refine in
+/-- **"Writes to one key never change what another key returns"** — also for keys sharing a
+bucket through a SHA-1 collision. -/
+theorem program_lookup_ignores_other_keys (cfg : Cfg) (cache : Path) (ops : List (Env × IOp)) (fs : FS)
+    (h : HealthyIndex cfg cache fs) (hops : ∀ x ∈ ops, OpWF cfg x.2) (key : Bytes)
+    (hkey : ∀ x ∈ ops, ¬ x.2.writes key) (env' : Env) :
+    (Prog.run env' (find cfg cache key) (runOps cfg cache ops fs).2).1 =
+      (Prog.run env' (find cfg cache key) fs).1 :=
+  (Refine.look_ignores_other_keys cfg cache ops fs h hops key hkey env').2
+
+open Refine in
+/-- The empty cache is a healthy index (non-vacuity of the refinement's hypothesis). -/
+theorem empty_cache_healthy (cfg : Cfg) (cache : Path) (fs : FS)
+    (hanc : ∀ q, q ≠ [] → q <+: cache → NoneOrDir fs q)
+    (hbelow : ∀ q, cache <+: q → q ≠ cache → fs.get q = none) : HealthyIndex cfg cache fs :=
+  Refine.healthy_of_empty_cache cfg cache fs hanc hbelow
 
 /-- Non-vacuity: the hypotheses are satisfiable by a concrete non-trivial history. -/
 example : ∃ (pre post : List (Nat × Bytes)), pre ≠ [] ∧ post ≠ [] ∧
